@@ -6,6 +6,7 @@ import (
 	"go/ast"
 	"go/types"
 	"sort"
+	"strings"
 
 	"golang.org/x/tools/go/ssa"
 	"golang.org/x/tools/go/ssa/ssautil"
@@ -109,6 +110,12 @@ func (p *Prog) inlineSet(level int, only map[string]bool) error {
 						if !asArg {
 							continue
 						}
+					}
+					// a promotion wrapper (method of an embedded struct seen through the outer type) can only be
+					// reached through an interface that lists the method: an unexported method name that no
+					// interface of the repository declares is never dispatched to
+					if synthetic && strings.HasPrefix(fn.Synthetic, "wrapper for") && g.Signature.Recv() != nil && !ast.IsExported(g.Name()) && !ifaceMeth[g.Name()] {
+						continue
 					}
 					addrTaken[g] = true
 				}
